@@ -1,7 +1,18 @@
 """multiquadratic constants: sum_k coef_k * sqrt(squarefree_k) * rsp^e_k  (rsp = 1/sqrt(pi), kept symbolic)"""
 from fractions import Fraction
+class TooHard(Exception):
+    pass
+
+
 def _sqfree(n):
     """n = s^2 * f, f squarefree; return (s, f)"""
+    if n > 10 ** 14:
+        # cheap square test, otherwise give up (the caller keeps the root as an atom)
+        import math
+        r = math.isqrt(n)
+        if r * r == n:
+            return r, 1
+        raise TooHard()
     s, f, p = 1, 1, 2
     while p * p <= n:
         c = 0
